@@ -5,6 +5,7 @@ package cache
 import (
 	"fmt"
 	"math"
+	"os"
 	"sort"
 	"sync"
 	"testing"
@@ -92,6 +93,14 @@ type c31Harness struct {
 	nspans   int
 	wrong    []string // answers of the real code that differ from the spec's
 	panicMsg string
+	// promise-only alternative (VERIF_ALT=promise, SpecP of DecisionCache.tla): nothing but
+	// the answers of CheckSpan/CheckTrace is observed
+	promise bool
+	last    map[string]any
+}
+
+func c31NoLast() map[string]any {
+	return map[string]any{"op": "-", "t": "-", "ans": "-", "rate": 0, "reason": ""}
 }
 
 var c31IDCache = map[string]map[string]string{}
@@ -171,9 +180,14 @@ func c31Slots(f *cuckoo.Filter) int {
 
 func (h *c31Harness) Reset(init map[string]any) error {
 	h.shutdown()
+	h.promise = os.Getenv("VERIF_ALT") == "promise"
+	h.last = c31NoLast()
 	curBag, ok := init["cur"].(map[string]any)
 	if !ok {
-		return fmt.Errorf("init state has no cur bag: %v", init)
+		curBag, ok = init["pSince"].(map[string]any)
+	}
+	if !ok {
+		return fmt.Errorf("init state names no traces: %v", init)
 	}
 	h.names = h.names[:0]
 	for n := range curBag {
@@ -207,6 +221,9 @@ func (h *c31Harness) Reset(init map[string]any) error {
 	h.c.dropped.shutdownWG.Wait()
 	h.clock = clockwork.NewFakeClock()
 	h.c.recentDroppedIDs.Clock = h.clock
+	if _, has := init["curSlots"]; !has {
+		return nil
+	}
 	if got, want := c31Slots(h.c.dropped.current), verifkit.Int(init, "curSlots"); got != want {
 		return fmt.Errorf("cuckoo.NewFilter(%d) has %d slots, the specification assumes %d", cfg.DroppedSize, got, want)
 	}
@@ -257,6 +274,12 @@ func (h *c31Harness) count(desc, spans, events, links uint) int {
 }
 
 func (h *c31Harness) expect(a map[string]any, key string, got map[string]any) {
+	if h.promise {
+		if key == "ans" {
+			h.last = map[string]any{"op": verifkit.Str(a, "name"), "t": verifkit.Str(a, "t"), "ans": got["ans"], "rate": got["rate"], "reason": got["reason"]}
+		}
+		return
+	}
 	want := verifkit.Canon(a[key])
 	if g := verifkit.Canon(got); g != want {
 		h.wrong = append(h.wrong, fmt.Sprintf("%s(%v): real code answered %s, specification %s", verifkit.Str(a, "name"), a["t"], g, want))
@@ -270,6 +293,7 @@ func (h *c31Harness) Apply(a map[string]any) (err error) {
 		}
 	}()
 	h.met.reset()
+	h.last = c31NoLast()
 	id := h.ids[verifkit.Str(a, "t")]
 	switch verifkit.Str(a, "name") {
 	case "RecordKept":
@@ -320,7 +344,11 @@ func (h *c31Harness) Apply(a map[string]any) (err error) {
 			SizeCheckInterval: config.Duration(1000 * time.Hour),
 			WorkerCount:       1,
 		})
-		if (e != nil) != verifkit.Bool(a, "err") {
+		if h.promise {
+			if e != nil {
+				return fmt.Errorf("Resize(%v) failed: %v", a, e)
+			}
+		} else if (e != nil) != verifkit.Bool(a, "err") {
 			h.wrong = append(h.wrong, fmt.Sprintf("Resize(kept=%v): error %v, specification expects error=%v", a["kept"], e, a["err"]))
 		}
 	default:
@@ -332,6 +360,13 @@ func (h *c31Harness) Apply(a map[string]any) (err error) {
 // Project observes the cache without disturbing it: lru.Keys/Peek do not touch
 // recency, CuckooTraceChecker.Check and SetWithTTL.Contains are pure.
 func (h *c31Harness) Project() (any, error) {
+	if h.promise {
+		out := map[string]any{"last": h.last}
+		if h.panicMsg != "" {
+			out["panic"] = h.panicMsg
+		}
+		return out, nil
+	}
 	name := map[string]string{}
 	for n, id := range h.ids {
 		name[id] = n
